@@ -79,6 +79,7 @@ type VC struct {
 	stateSort        map[string]string
 	freshN           int
 	callN            int
+	alwaysDone       map[*ssa.Function]bool
 	loopKeep         map[*loopInfo]string
 	lastExisted      string
 	lastExistedBlock *ssa.BasicBlock
@@ -411,6 +412,9 @@ func (vc *VC) invariantIn(li *loopInfo, t string) bool {
 	if vc.knownInvariant[t] {
 		return true
 	}
+	if li != nil && vc.stableCellLoad(li, t) {
+		return true
+	}
 	for _, id := range identRe.FindAllString(t, -1) {
 		if v, ok := vc.ssaByName[id]; ok && li != nil {
 			if in, isInstr := v.(ssa.Instruction); isInstr && in.Block() != nil && !li.blocks[in.Block()] {
@@ -419,6 +423,53 @@ func (vc *VC) invariantIn(li *loopInfo, t string) bool {
 		}
 		if !loopInvariantTerm(id) {
 			return false
+		}
+	}
+	return true
+}
+
+// stableCellLoad: t reads a variable that lives in a cell allocated before loop li (a captured or
+// address-taken local) which no instruction of the loop writes: the same value in every iteration,
+// whatever version of the cell array the term names.
+var cellLoadRe = regexp.MustCompile(`^\(select (cell_[A-Za-z0-9_]+)[@!][A-Za-z0-9_!@]* ([^() ]+)\)$`)
+
+func (vc *VC) stableCellLoad(li *loopInfo, t string) bool {
+	m := cellLoadRe.FindStringSubmatch(t)
+	if m == nil {
+		return false
+	}
+	cn, ref := m[1], m[2]
+	if v, ok := vc.ssaByName[ref]; ok {
+		if a, isAlloc := v.(*ssa.Alloc); isAlloc {
+			if at, ok := vc.vals[a]; ok {
+				ref = at.S
+			}
+		}
+	}
+	ab, ok := vc.allocBlock[ref]
+	if !ok || li.blocks[ab] {
+		return false
+	}
+	wsrc := vc.written
+	if vc.writtenFrozen != nil {
+		wsrc = vc.writtenFrozen
+	}
+	for lb := range li.blocks {
+		if wsrc[lb]["*"] != nil {
+			return false
+		}
+		for ix2 := range wsrc[lb][cn] {
+			if ix2 == "" || ix2 == ref || ix2 == m[2] {
+				return false
+			}
+			if _, isAlloc := vc.allocBlock[ix2]; !isAlloc && !loopInvariantTerm(ix2) {
+				if v, ok := vc.ssaByName[ix2]; ok {
+					if _, isA := v.(*ssa.Alloc); isA {
+						continue
+					}
+				}
+				return false
+			}
 		}
 	}
 	return true
